@@ -12,7 +12,7 @@ import posixpath
 
 FAILING = {"NOTFOUND", "ERR_BEFORE", "ERR_MID", "ERR_AFTER", "HTTP_404", "HTTP_5XX", "CONN_ERR", "TIMEOUT",
            "EIO", "ENOSPC", "EMFILE", "SRC_MISSING", "PP_ERR_BEFORE", "PP_ERR_MID", "PP_ERR_AFTER", "RENAME_EIO",
-           "RET_FALSE_BEFORE", "RET_FALSE_MID", "INTERRUPT_MID", "PP_INTERRUPT_MID", "ERR_STOPITER", "VALIDATE_RAISE"}
+           "RET_FALSE_BEFORE", "RET_FALSE_MID", "INTERRUPT_MID", "PP_INTERRUPT_MID", "ERR_STOPITER", "VALIDATE_RAISE", "DISK_FULL"}
 NOTFOUND_KINDS = {"NOTFOUND", "HTTP_404", "SRC_MISSING"}
 
 
@@ -258,6 +258,8 @@ class Oracle:
             elif f.get("key") is not None:
                 fail_res.add(self._res(f["key"]))
         fail_keys |= natural_missing
+        if any(f["kind"] == "DISK_FULL" for f in failing):
+            fail_keys |= set(k for k in req if k not in reg or k in rejected)
         maybe_failed = {k for k in req if k in fail_keys or self._res(k) in fail_res}
         zombies = obs.busy_before > 0 or obs.busy_after > 0
         strict = not fired and not natural_missing and not obs.crashed and not zombies
